@@ -36,7 +36,7 @@ def gen_cases(tier, seed):
         adaptive = bool(k % 2)
         o = S.base_options(rng, adaptive=adaptive, steps=(10 if tier == "quick" else 25) if scr else 40, screening=scr)
         if not adaptive:
-            o.update(dt_init=2e-3, solve_time=40 * 2e-3 - 1e-3)
+            o["auto_dt"] = {"steps": 40, "frac": 0.3, "exact": True}
         drive = {"A": S.field_spec(rng, dev, o, ["uniform", "ramp", "osc", "uniform"][k % 4], b=0.25),
                  "currents": S.current_spec(rng, dev, o, ["const", "callable"][k % 2] if nt else "none", strength=0.15),
                  "epsilon": {"kind": ["one", "spatial", "time"][k % 3]}}
@@ -151,6 +151,7 @@ def case_resume(spec):
 
     def run(nsteps, seed_solution=None):
         sp = copy.deepcopy(spec)
+        sp["options"]["auto_dt"] = {"steps": nsteps, "frac": 0.3, "exact": True}
         sp["options"]["solve_time"] = nsteps * dt - dt / 2
         sp["options"]["terminal_psi"] = spec["terminal_psi"]
         tm = simmon.TraceMonitor()
